@@ -266,6 +266,54 @@ fn check_op(sop: &SOp, proto: &[u8], obs: &mut Obs) -> Verdict {
             return Verdict::Fail(format!("{:?} replayed into `&mut hook` handed over by value: Capture got {:?}, the recording hook {:?}", op, cap2.ops(), rec3.events));
         }
     }
+    // ... and through the forwarding wrappers of the crate: NoFinishHook (by value and around a
+    // `&mut`) and Replace pass a single op on unchanged
+    {
+        use similar::algorithms::{DiffHook, NoFinishHook, Replace};
+        let mut nf = NoFinishHook::new(Capture::new());
+        op.apply_to_hook(&mut nf).unwrap();
+        let got = nf.into_inner().into_ops();
+        let mut cap = Capture::new();
+        {
+            let mut nf2 = NoFinishHook::new(&mut cap);
+            op.apply_to_hook(&mut nf2).unwrap();
+        }
+        if got != [op] || cap.ops() != [op] {
+            return Verdict::Fail(format!("{:?} replayed through NoFinishHook: NoFinishHook<Capture> got {:?}, NoFinishHook<&mut Capture> {:?}", op, got, cap.ops()));
+        }
+        if ol_nl_nonzero(&op) {
+            let mut rp = Replace::new(Capture::new());
+            op.apply_to_hook(&mut rp).unwrap();
+            rp.finish().unwrap();
+            let got = rp.into_inner().into_ops();
+            if got != [op] {
+                return Verdict::Fail(format!("{:?} replayed through Replace<Capture> (then finish): {:?}", op, got));
+            }
+        }
+    }
+    // slice-wise expansion over STRING sequences (Index<Range<usize>> for str): only the side(s) the op
+    // consumes are sliced, so the position carried for the other side may fall anywhere - also inside a
+    // multi-byte character of that other string
+    {
+        let so = "abcdefghijklmnopqrstuvwxyz";
+        let sn = "\u{e9}\u{e9}\u{e9}\u{e9}\u{e9}\u{e9}\u{e9}\u{e9}\u{e9}\u{e9}\u{e9}\u{e9}\u{e9}";
+        let (_, o, n) = op.as_tag_tuple();
+        if o.end <= so.len() && n.start <= sn.len() {
+            match op {
+                DiffOp::Delete { .. } => match guard(|| op.iter_slices(so, sn).map(|(t, x): (ChangeTag, &str)| (t, x.to_string())).collect::<Vec<_>>()) {
+                    Ok(v) if v == vec![(ChangeTag::Delete, so[o.clone()].to_string())] => {}
+                    Ok(v) => return Verdict::Fail(format!("{:?}.iter_slices over two strs yields {:?}", op, v)),
+                    Err(p) => return Verdict::Fail(format!("{:?}.iter_slices over two strs (the carried new index {} is not used for slicing): {}", op, n.start, p)),
+                },
+                DiffOp::Insert { .. } if n.end <= so.len() && o.start <= sn.len() => match guard(|| op.iter_slices(sn, so).map(|(t, x): (ChangeTag, &str)| (t, x.to_string())).collect::<Vec<_>>()) {
+                    Ok(v) if v == vec![(ChangeTag::Insert, so[n.clone()].to_string())] => {}
+                    Ok(v) => return Verdict::Fail(format!("{:?}.iter_slices over two strs yields {:?}", op, v)),
+                    Err(p) => return Verdict::Fail(format!("{:?}.iter_slices over two strs (the carried old index {} is not used for slicing): {}", op, o.start, p)),
+                },
+                _ => {}
+            }
+        }
+    }
     let (ol, nl) = (want_tuple.1.len(), want_tuple.2.len());
     obs.nontrivial = want_tuple.1.start != want_tuple.2.start && (!matches!(op, DiffOp::Replace { .. }) || ol != nl);
     obs.class(match op {
@@ -276,6 +324,16 @@ fn check_op(sop: &SOp, proto: &[u8], obs: &mut Obs) -> Verdict {
     });
     obs.class_if(ol == 0 && nl == 0, "zero-length op");
     Verdict::Pass
+}
+
+/// Replace drops nothing of an op whose consumed sides are non-empty
+fn ol_nl_nonzero(op: &DiffOp) -> bool {
+    match *op {
+        DiffOp::Equal { len, .. } => len > 0,
+        DiffOp::Delete { old_len, .. } => old_len > 0,
+        DiffOp::Insert { new_len, .. } => new_len > 0,
+        DiffOp::Replace { old_len, new_len, .. } => old_len > 0 && new_len > 0,
+    }
 }
 
 type Flat<'a, T> = Vec<(ChangeTag, Option<usize>, Option<usize>, &'a T)>;
@@ -505,7 +563,7 @@ impl Prop for C13 {
     type Case = Case;
     const ID: &'static str = "C13";
     fn rule() -> String {
-        "cases = Op(one op of any of the four kinds with arbitrary offsets/lengths, expanded against injectively valued sequences old[i]=i, new[j]=10^6+j so that any old/new or index mix-up changes a value) | Text(text diff, radius: whole-diff iteration and hunk iteration); enumeration of all ops with offsets and lengths in 0..4. Oracle: exact expected (tag, old_index, new_index, value) vector per kind; iter_slices items == item-wise expansion with 1 (Replace: 2) slices; a generated iterator-protocol script (mix of next()/nth(k)) walks the same expansion, size_hint brackets the remainder, count/last/step_by agree, and after 0, 1, 2 or j next() calls the fold-based consumers (fold, for_each, count, last, find, skip, a peeked Peekable) yield exactly the rest; TextDiff::iter_changes == DiffOp::iter_changes also for in-bounds ops that are not the diff's own (an Equal op over unequal items, whole-side Replace / Delete / Insert); iter_all_changes / UnifiedDiffHunk::iter_changes (hunks from iter_hunks and hunks built by hand from the changes only, from the reversed op list, from all radius-0 groups concatenated (zero-length Equal ops in the middle) from the op list interleaved with zero-length ops of every kind, from the op list with every Equal turned into a Replace over the same ranges, from the groups of radius 1 and 2 concatenated, and from the raw script of the algorithm without Compact/Replace) == concatenation of per-op expansions and every value is the token at its index; apply_to_hook(Capture) reproduces the op; as_tag_tuple ranges. Non-trivial = old_index != new_index and (Replace) old_len != new_len, or a text diff with >= 2 ops; distinct = distinct serialized case.".into()
+        "cases = Op(one op of any of the four kinds with arbitrary offsets/lengths, expanded against injectively valued sequences old[i]=i, new[j]=10^6+j so that any old/new or index mix-up changes a value) | Text(text diff, radius: whole-diff iteration and hunk iteration); enumeration of all ops with offsets and lengths in 0..4. Oracle: exact expected (tag, old_index, new_index, value) vector per kind; iter_slices items == item-wise expansion with 1 (Replace: 2) slices; a generated iterator-protocol script (mix of next()/nth(k)) walks the same expansion, size_hint brackets the remainder, count/last/step_by agree, and after 0, 1, 2 or j next() calls the fold-based consumers (fold, for_each, count, last, find, skip, a peeked Peekable) yield exactly the rest; TextDiff::iter_changes == DiffOp::iter_changes also for in-bounds ops that are not the diff's own (an Equal op over unequal items, whole-side Replace / Delete / Insert); iter_all_changes / UnifiedDiffHunk::iter_changes (hunks from iter_hunks and hunks built by hand from the changes only, from the reversed op list, from all radius-0 groups concatenated (zero-length Equal ops in the middle) from the op list interleaved with zero-length ops of every kind, from the op list with every Equal turned into a Replace over the same ranges, from the groups of radius 1 and 2 concatenated, and from the raw script of the algorithm without Compact/Replace) == concatenation of per-op expansions and every value is the token at its index; apply_to_hook(Capture) reproduces the op, also through NoFinishHook<Capture>, NoFinishHook<&mut Capture> and Replace<Capture>; iter_slices over two strs slices only the consumed side (the carried index may fall inside a multi-byte character of the other string); as_tag_tuple ranges. Non-trivial = old_index != new_index and (Replace) old_len != new_len, or a text diff with >= 2 ops; distinct = distinct serialized case.".into()
     }
     fn assumptions() -> Vec<String> {
         vec!["sequences are long enough for the op (in-bounds by construction)".into()]
